@@ -1,6 +1,7 @@
 package faults
 
 import (
+	"bytes"
 	"fmt"
 	"strconv"
 	"strings"
@@ -13,6 +14,8 @@ import (
 // cross-reference data stay valid and the damaged field is really reached.
 
 var badInts = []pdfw.Obj{0, -1, 2147483648, 9223372036854775807, pdfw.Raw("1" + strings.Repeat("0", 400)), 1000000, -2147483649}
+
+var repeatTokens = []string{"q ", "[ ", "<< ", "( ", "BT ", "q 1 0 0 1 0 0 cm ", "/Span << /MCID 0 >> BDC "}
 
 var words16 = []uint16{0xFFFF, 0x0000, 0x8000, 0x7FFF}
 
@@ -89,6 +92,13 @@ func EnumPDFFields(spec pdfw.DocSpec) []Fault {
 			}
 			for _, tf := range EnumPDFTokens(data) {
 				out = append(out, Fault{Layer: "pdfobj", Kind: "stream-text", A: int64(rc.num), B: tf.A<<20 | tf.B, S: tf.S})
+			}
+			// one token repeated tens of thousands of times in front of the program: unmatched
+			// saves, nesting, marked content - whatever is kept per occurrence is kept 20 000 times
+			if !bytes.Contains(data, []byte("begincmap")) {
+				for _, tok := range repeatTokens {
+					out = append(out, Fault{Layer: "pdfobj", Kind: "stream-repeat", A: int64(rc.num), B: 40000, S: tok})
+				}
 			}
 			// the data cut off at every token boundary (a torn stream whose /Length still matches)
 			prevWS := true
@@ -434,6 +444,8 @@ func ApplyPDFFields(spec pdfw.DocSpec, fs []Fault) []byte {
 			case f.Kind == "stream-text" && kind == "plain":
 				s := o.(pdfw.Str)
 				o = pdfw.Str{B: ApplyBytes(s.B, Fault{Kind: "replace", A: f.B >> 20, B: f.B & 0xFFFFF, S: f.S})}
+			case f.Kind == "stream-repeat" && kind == "plain":
+				o = pdfw.Str{B: append([]byte(strings.Repeat(f.S, int(f.B))), o.(pdfw.Str).B...)}
 			case f.Kind == "stream-word16" && kind == "plain":
 				b := append([]byte{}, o.(pdfw.Str).B...)
 				if off := int(f.B >> 8); off+2 <= len(b) {
